@@ -544,7 +544,7 @@ def elliptic_unit(draw, n, fam=None):
         u["ctor"] = "standard_rotation"
         u["angle"] = draw(st.one_of(fl(0.05, 2 * math.pi - 0.05),
                                     st.sampled_from([math.pi, math.pi / 2,
-                                                     2 * math.pi / 3])))
+                                                     2 * math.pi / 3, 4e-4])))
         return u
     u["ctor"] = "elliptic"
     u["cv"] = draw(st.booleans())
@@ -720,7 +720,7 @@ def body_fix_elliptic(case, ctx):
 @st.composite
 def lox_unit(draw, n):
     u = dict(C=draw(iso_spec(n)))
-    u["l"] = draw(st.one_of(fl(0.05, 4.0), st.sampled_from([0.05, 1.0, 4.0]))) * \
+    u["l"] = draw(st.one_of(fl(0.05, 4.0), st.sampled_from([0.05, 1.0, 4.0, 4e-4]))) * \
         draw(st.sampled_from([-1.0, 1.0]))
     # the parameter of standard_loxodromic is e^l: for l = log 2, log 3, log 5 it is a whole
     # number, which a caller may well write as an int (or hold in a NumPy integer)
@@ -790,8 +790,12 @@ def body_fix_loxodromic(case, ctx):
         kc_ = np.array(pt_.coords("klein"), dtype=float)
         ctx.check(pc.shape == shape + (n,) and np.all(np.isfinite(pc)),
                   "Poincare coordinates of the %s point are finite" % nm_, got=pc)
+        # (a point within delta of the light cone is within sqrt(delta) of the sphere in the
+        # ball model; delta grows like cond^2 / (1 - e^-l) for a short translation length)
+        dl_ = max(1e-9 * cond2(C_) ** 2 / (1.0 - math.exp(-abs(u_["l"])))
+                  for C_, u_ in zip(Cs, case["units"]))
         ctx.small("the %s point read in the Poincare model is its Klein point (both on the "
-                  "unit sphere)" % nm_, pc - kc_, 1e-6)
+                  "unit sphere)" % nm_, pc - kc_, 1e-6 + 3 * math.sqrt(dl_))
     ax = T.axis()
     ctx.check(isinstance(ax, hyperbolic.Geodesic), "axis returns a Geodesic",
               got=type(ax).__name__)
